@@ -158,6 +158,26 @@ def gen(rng, tier):
         if rng.random() < 0.6:
             s += rng.choice("eE") + rng.choice(["", "+", "-"]) + str(rng.choice([0, 1, 5, 10, 22, 23, 100, 300, 308, 309, 320, 340, 400, rng.randrange(0, 700)]))
         cases.append(Case("json.f64 " + hx(s), tags=("f64",), nontrivial=False))
+    # perturbed spellings of string-valued fields: a valid decimal / hex string, address, calldata or storage key with white
+    # space, case, doubled or mixed prefixes, signs before and after the prefix, digit separators, quotes, invisible characters
+    from vlib.core import perturb
+    for kind in ("legacy", "eip2930", "eip1559"):
+        j, exp = txgen.rand_tx(rng, kind=kind, al_shape=[1])
+        for key in NUMERIC[kind]:
+            v = rng.choice([16, 255, 10 ** 18, 2 ** 64, rng.randrange(2 ** 200)])
+            for tok in perturb(str(v)) + perturb(hex(v), "0x"):
+                cases.append(Case("tx.parse " + hx(replace_field(j, key, json.dumps(tok))), tags=("perturbed-string", "kind:" + kind), meta={"field": key}))
+        a = txgen.rand_addr(rng)
+        for tok in perturb(a, "0x"):
+            cases.append(Case("tx.parse " + hx(replace_field(j, "to", json.dumps(tok))), tags=("perturbed-string", "to")))
+        for tok in perturb("0x" + "ab" * 6, "0x"):
+            cases.append(Case("tx.parse " + hx(replace_field(j, "data", json.dumps(tok))), tags=("perturbed-string", "data")))
+        if kind != "legacy":
+            k32 = "0x" + "%064x" % rng.getrandbits(256)
+            for tok in perturb(k32, "0x"):
+                cases.append(Case("tx.parse " + hx(replace_field(j, "accessList", json.dumps([[a, [tok]]]))), tags=("perturbed-string", "storage-key")))
+            for tok in perturb(a, "0x"):
+                cases.append(Case("tx.parse " + hx(replace_field(j, "accessList", json.dumps([[tok, [k32]]]))), tags=("perturbed-string", "al-address")))
     # which kind a document is, and which field sets are refused: every subset of the pricing / access-list fields
     for j, sub, wc in txgen.field_mixes(rng):
         cases.append(Case("tx.parse " + hx(j), tags=("field-mix", "fields:" + sub)))
